@@ -3,10 +3,11 @@ import numpy as np
 
 
 class IBM:
-    def __init__(self, modules, kill=None, age=False, log=None, **kw):
+    def __init__(self, modules, kill=None, age=False, log=None, kill_t0=None, **kw):
         self.modules = modules
         self.kill = kill or {}
         self.age = age
+        self.kill_t0 = kill_t0  # if given, the kill table is keyed by absolute step (time - kill_t0) / dt
         self.closed = 0
         self.calls = []
         self.log = log
@@ -20,7 +21,8 @@ class IBM:
             self.log.append(("ibm", step, list(state.pid), list(state.X), list(state.alive)))
         if self.age:
             state["age"] = state.age + timer.dt / np.timedelta64(1, "s")
-        flags = self.kill.get(step)
+        key = step if self.kill_t0 is None else int((timer.time - self.kill_t0) // timer.dt)
+        flags = self.kill.get(key)
         if flags and len(state.X):
             mask = np.array([flags.get(int(p), False) for p in state.pid], dtype=bool)
             state.alive[mask] = False
